@@ -58,6 +58,12 @@ type State struct {
 	env  map[types.Object]Val
 	heap map[string]string // heap array name -> current term (a declared constant)
 	hv   int               // heap version (for pure interface-method UFs)
+	// hvAll: an unknown call havocked the whole heap on this path: arrays first touched afterwards are
+	// unknown too (not their entry version).  lazyRefs: references (objects behind interface values named
+	// in a modifies clause) whose cells are unknown in every pointer-cell array, including ones
+	// first touched later.
+	hvAll    bool
+	lazyRefs []string
 	pc   *pcNode
 	held map[string]bool // mutexes held (by printed expression)
 	// oldHeap: guarded heap arrays as they were when this path first acquired their lock; old() of
@@ -213,9 +219,27 @@ func (s *State) heapGet(name, sort string) string {
 	if t, ok := s.heap[name]; ok {
 		return t
 	}
-	c := s.eng.declare(name+"@0", sort)
+	var c string
+	if s.hvAll {
+		c = s.eng.fresh(name+"@h", sort)
+		s.eng.typingAxiom(c, name, s.allocPtr())
+	} else {
+		c = s.eng.declare(name+"@0", sort)
+		s.eng.typingAxiom(c, name, s.eng.declare("alloc@0", sInt))
+	}
 	s.heap[name] = c
-	s.eng.typingAxiom(c, name, s.eng.declare("alloc@0", sInt))
+	if len(s.lazyRefs) > 0 && strings.HasPrefix(name, "H$") && strings.HasPrefix(sort, "(Array Int ") {
+		el := sort[len("(Array Int ") : len(sort)-1]
+		t := c
+		for _, r := range s.lazyRefs {
+			t = mkSto(t, r, s.eng.fresh("hv", el))
+		}
+		c2 := s.eng.fresh(name+"@", sort)
+		s.pc = s.pc.push(mkEq(c2, t))
+		s.eng.typingAxiom(c2, name, s.allocPtr())
+		s.heap[name] = c2
+		return c2
+	}
 	return c
 }
 
